@@ -241,7 +241,7 @@ std::vector<Cell> build_cells() {
 			for (int fin = 0; fin < n; fin++)
 				for (int st = PREPROCESS; st <= last && st <= ASSEMBLE; st++)
 					for (int fm = 1; fm <= 7; fm++) {
-						if (fm == M_NODRAIN) continue;
+						if (fm == M_NODRAIN && (st == PREPROCESS || st == ASSEMBLE && false)) continue;  // a first stage has no pipe to leave undrained
 						cells.push_back({n, last, fin, st, fm});
 					}
 			if (last == LINK)
@@ -355,7 +355,7 @@ Scenario gen_c18(uint64_t seed, uint64_t index, bool relaxed) {
 
 	auto add_failure = [&](int input, int stage, int fmode) {
 		int occ = stage == LINK ? 0 : occ_of(input, stage);
-		if (fmode >= 1 && fmode <= 5) {
+		if (fmode >= 1 && fmode <= 6) {
 			ToolPlan p;
 			p.kind = stage; p.occ = occ; p.mode = fmode;
 			switch (fmode) {
